@@ -677,8 +677,12 @@ func (p c10) structCase(c *fw.Case) {
 			return
 		}
 		c.Eval(1)
+		hasRefs := hasAnyRef(s, map[*jsonschema.Schema]bool{})
+		if err == nil && merr != nil && !hasRefs {
+			// Resolve accepted a value Marshal refuses (numbers JSON cannot write, say): it still has to validate without panicking
+			p.exercise(c, rs, desc+" that does not marshal: "+merr.Error(), false, s.Schema == gen.Schema7URI || s.Schema == gen.Schema7URIs, "struct")
+		}
 		if err == nil && merr == nil {
-			hasRefs := hasAnyRef(s, map[*jsonschema.Schema]bool{})
 			// With references AND a loader that answers, a reference may leave the document (a relative BaseURI even turns
 			// "#" into a remote URI) and come back through a loader document that refers to itself in place: outside the
 			// proviso, and invisible to the single-document model used as guard. Decide only when no loader can answer.
